@@ -46,7 +46,12 @@
 #define MYTH_SPLIT_STACK_DESC 1
 
 //Runqueue length
+#if defined(MYTH_VERIF_QUEUE_SIZE)
+/* verification builds: small capacities reach the re-centring and full paths */
+#define INITIAL_QUEUE_SIZE (MYTH_VERIF_QUEUE_SIZE)
+#else
 #define INITIAL_QUEUE_SIZE (65536*2)
+#endif
 
 //Wrap and multipelx I/O functions
 #define MYTH_WRAP_SOCKIO 0
